@@ -31,6 +31,17 @@ Evaluable(r) == ~Has(r, "big")                         \* rows whose input was t
 \* from recover(); the specification has no such outcome)
 P12_Total(r) == \A i \in 1..Len(r.cl) : r.cl[i] \in {"value", "error"}
 
+\* builder histories (k = "bhist"): r.ops is the sequence of operations applied to ONE builder object, r.obs[i] what ToString,
+\* ToBytes and GetLast returned after operation i and what the real call parser made of that string
+BHistAgrees(r) ==
+  LET sts == BRun(B0, r.ops, 1) IN
+  /\ Len(r.obs) = Len(r.ops)
+  /\ \A i \in 1..Len(r.ops) : /\ r.obs[i].s = BToString(sts[i]) /\ r.obs[i].b = r.obs[i].s /\ r.obs[i].last = BLast(sts[i])
+                               /\ SameRes(r.obs[i].parse, ParseCall(r.obs[i].s))
+BHistInverse(r) ==
+  LET sts == BRun(B0, r.ops, 1) IN
+  \A i \in 1..Len(r.ops) : BRepresentable(sts[i]) => SameRes(r.obs[i].parse, Val(BMeaning(sts[i])))
+
 Agree(obs, exp) == exp.cls = "unspec" \/ SameRes(obs, exp)
 
 \* the items / receiver / attached call a transfer message must carry, read off the sender-side call
@@ -52,6 +63,7 @@ P12_Agrees(r) ==
          [] r.k = "su" -> r.bcls = "value" => /\ r.data = CreateSU(r.us)
                                               /\ r.pin \in {r.data, <<AT>> \o r.data}        \* what the parser was given
                                               /\ SameRes(r.parse, ParseSU(r.pin))
+         [] r.k = "bhist" -> r.bcls = "value" => BHistAgrees(r)
          [] r.k = "msg" -> r.res = "ok" => /\ SameRes(r.parse, ParseCall(r.data))
                                            /\ r.parse.cls = "value" => Agree(r.dst, ParseTransfers(r.snd, r.rcv, r.parse.v.fn, r.parse.v.args))
          [] OTHER -> TRUE
@@ -64,6 +76,7 @@ InverseDemanded(r) ==
     [] r.k = "deploy" -> r.code # <<>> /\ r.vm # <<>>
     [] r.k = "su" -> r.us # <<>> /\ \A i \in 1..Len(r.us) : r.us[i].o # <<>>
     [] r.k = "msg" -> r.res = "ok" /\ MsgSenderView(r).cls = "value"
+    [] r.k = "bhist" -> r.bcls = "value" /\ \E i \in 1..Len(r.ops) : BRepresentable(BRun(B0, r.ops, 1)[i])
     [] OTHER -> FALSE
 P12_Inverse(r) ==
   IF ~Evaluable(r) \/ ~InverseDemanded(r) THEN TRUE
@@ -71,6 +84,7 @@ P12_Inverse(r) ==
                              /\ r.data2 = r.data                                           \* build - parse - build gives the same string
          [] r.k = "deploy" -> SameRes(r.parse, Val([code |-> r.code, vm |-> r.vm, meta |-> r.meta, args |-> r.args]))
          [] r.k = "su" -> SameRes(r.parse, Val(r.us)) /\ r.data2 = r.data
+         [] r.k = "bhist" -> BHistInverse(r)
          [] r.k = "msg" -> \* what can be observed of the unexported message encoder: the emitted string parses, names the
                            \* function, is exactly what the builder makes of its own parse (so parse inverts the encoder on it),
                            \* and the attached call read off the message is the one the sender attached.  Token amounts and
@@ -105,12 +119,12 @@ Pred(name, r) ==
     [] name = "P14_Deterministic" -> P14_Deterministic(r) [] name = "P14_DecodeTotal" -> P14_DecodeTotal(r)
     [] OTHER -> TRUE
 PredNames == {"P12_Total", "P12_Agrees", "P12_Inverse", "P14_Bytes", "P14_RoundTrip", "P14_Size", "P14_Deterministic", "P14_DecodeTotal"}
-C12Kinds == {"str", "xfer", "build", "deploy", "su", "msg"}
+C12Kinds == {"str", "xfer", "build", "deploy", "su", "msg", "bhist"}
 C14Kinds == {"amt", "tok", "meta", "roles"}
 
 \* vacuity counters: what the table exercised
 Counters == {"rows", "evaluated", "value", "error", "panic", "inverse", "unspec", "table", "random", "illtyped",
-             "str", "xfer", "build", "deploy", "su", "msg", "amt", "tok", "meta", "roles", "decoded", "rejected", "xfer_value", "xfer_error"}
+             "str", "xfer", "build", "deploy", "su", "msg", "bhist", "bhist_reuse", "amt", "tok", "meta", "roles", "decoded", "rejected", "xfer_value", "xfer_error"}
 Cnt0 == [k \in Counters |-> 0]
 Triggers(r) ==
   {"rows", r.k}
@@ -120,6 +134,8 @@ Triggers(r) ==
   \cup (IF r.k \in C12Kinds /\ Evaluable(r) /\ InverseDemanded(r) THEN {"inverse"} ELSE {})
   \cup (IF r.k = "xfer" /\ Evaluable(r) THEN (LET e == ParseTransfers(r.snd, r.rcv, r.fn, r.args).cls IN
                                                IF e = "unspec" THEN {"unspec"} ELSE IF e = "value" THEN {"xfer_value"} ELSE {"xfer_error"}) ELSE {})
+  \* a builder history in which an observation is followed by a change that does not add an element (Func, SetLast, Clear)
+  \cup (IF r.k = "bhist" /\ \E i \in 2..Len(r.ops) : r.ops[i].op \in {"func", "setlast", "clear"} THEN {"bhist_reuse"} ELSE {})
   \cup (IF r.k \in C14Kinds /\ Has(r, "in") THEN (IF r.dcls = "value" THEN {"decoded"} ELSE {"rejected"}) ELSE {})
   \cup (IF r.k \in C14Kinds /\ Has(r, "v") /\ ~WellTyped(r.k, r.v) THEN {"illtyped"} ELSE {})
 
